@@ -2,7 +2,7 @@ package main
 
 // C20 — context.Pool against coq/C20.
 //
-// Three kinds of cases:
+// Four kinds of cases (cancelrace: see runCancelRace):
 //
 //	script: one caller drives NewPool / member cancellations / Add / Cancel / Size and lets the
 //	        pool settle after every step; observed = (Done() closed?, Size()) after creation and
@@ -18,6 +18,12 @@ package main
 //	race:   k live members are ended by one goroutine while other goroutines each Add one fresh
 //	        live context; the harness decides under its own mutex, from marks set BEFORE each
 //	        member is cancelled, which Adds certainly returned while a member was live.
+//
+// Every look that finds the pool's context done - after creation, after any step, after a Cancel
+// while members are still live or can never end (ids from 90: context.Background() and the like,
+// Done() == nil) - also asks that the pool's goroutine is gone: goroutines of the package under
+// test are counted by stack match (a frame of, or created by, github.com/dapr/kit/context, no
+// harness frame) against the count taken before the pool existed.
 //
 // No real-time judgement except "did not happen within liveDeadline" for observations that must
 // happen (pool done / goroutine gone / a call returns). A pool seen done is a fact (cancellation
@@ -1631,7 +1637,7 @@ func genCancelRace(ctx *core.Ctx) {
 	r := ctx.R
 	reps := 60
 	if ctx.Thorough {
-		reps = 2000
+		reps = 1000
 	}
 	for k := 1; k <= 3; k++ {
 		for cancels := 1; cancels <= 3; cancels++ {
